@@ -22,7 +22,7 @@ import tmplast as ta
 
 DRV = "drv_tparse"
 TABLES = (("Tables_tmpl", "gentables_tmpl.cpp"), ("Tables_expr", "gentables_expr.cpp"), ("Tables_digit", "gentables_digit.cpp"),
-          ("Tables_tparse", "gentables_tparse.cpp"))
+          ("Tables_tparse", "gentables_tparse.cpp"), ("Tables_tmplfmt", "gentables_tmplfmt.cpp"))
 
 EXTRA_TOKENS = ["{if case=\"", "\" true=\"", "\" false=\"", "\"}", "<loop value=\"v\">", "<loop set=\"", "<if case=\"1\">", "<else>", "<else if case=\"",
                 "</loop>", "</if>", "{var:v}", "{var:v[0]}", "{raw:a}", "{math:1+", "{svar:a, ", "true=", "false=", "case=", "sort=", "group=", "set=", "value=",
